@@ -745,7 +745,7 @@ impl Scenario for W2Scenario {
     }
     fn cases(&self, tier: Tier) -> u64 {
         match tier {
-            Tier::Quick => if self.prop == "C05" { 16_000 } else { 30_000 },
+            Tier::Quick => if self.prop == "C05" { 40_000 } else { 80_000 },
             Tier::Thorough => if self.prop == "C05" { 200_000 } else { 400_000 },
         }
     }
